@@ -1,11 +1,19 @@
 """C17 — AAT morx subtables run as the extended state-machine model prescribes.
-Proof: Props/C17.v over Model/Morx.v + Model/MorxPipe.v (rearrangement verbs = Apple's table for every
-range, non-contextual = map, drive totality, reversal pairing, flag gating, per-kind transition lemmas).
+Proof: Props/C17.v (23 theorems, closed) over Model/Morx.v + Model/MorxPipe.v: the rearrangement verb body
+(literal nibble-MAP loops) = Apple's verb table for all 16 verbs and every marked range <= 64 (+ general MAP
+byte, guard, permutation); non-contextual = map, clusters untouched; the drive loop never runs out of fuel
+for all four state-machine kinds and every state table (potential = remaining input + DONT_ADVANCE budget);
+exact single transitions: contextual (mark + current substitution), insertion at the current and at the
+marked glyph (before/after, order, copies of the anchor), ligature pair (pops follow the action list,
+ligature at the stored position, 0xFFFF for the other component, min cluster at levels 0/1); paired
+reversals restore the order; flag/direction gating is exactly the code's test; chain flags = defaults
+without `feat`.
 Tie: generated morx fonts (harness/src/c17.rs, fontgen) printed as Coq `font` terms; rustybuzz::shape
 results (gid, cluster) compared with `shape_morx` by vm_compute (Corr/MorxC.v `summary`).
-Search: implementation-level oracles on restricted fonts (non-contextual map, rearrangement verb table,
-pair ligature, insertion before/after), a malformed-font stream and the corpus morx fonts under the
-generic predicates (no panic, clusters from the input, length bound); corpus/C17-*.json run first."""
+Search: implementation-level oracles on restricted fonts (non-contextual map, rearrangement verb table by
+pattern, pair ligature, insertion before/after), a malformed-font stream (release and overflow-checked
+build, per-shape watchdog) and the corpus morx fonts under the generic predicates (no panic, clusters from
+the input, length bound); corpus/C17-*.json regression cases run first."""
 import base64
 import glob
 import json
@@ -239,15 +247,25 @@ def run_cases(binp, cs):
 def run_embedded_cases(binp, emb):
     """cases with their own font bytes, each under its time limit"""
     fails = []
+    binc = None
     for path, c in emb:
         limit = c.get("max_ms", 4000) / 1000.0
-        rc, out, err = C.run_rbv(binp, ["c17", "bytes", "--req", c["request"]], stdin=c["font_base64"], timeout=limit + 1.0)
+        use = binp
+        if c.get("profile") == "checked":
+            if binc is None:
+                okc, binc, _ = C.cargo_build("checked", hooks=True)
+                if not okc:
+                    fails.append({"what": "corpus-regression-case", "corpus_file": path, "why": "checked profile does not build"})
+                    continue
+            use = binc
+        rc, out, err = C.run_rbv(use, ["c17", "bytes", "--req", c["request"]], stdin=c["font_base64"], timeout=limit + 1.0)
         out = out.strip()
         if rc == 124:
             fails.append({"what": "corpus-regression-case", "corpus_file": path, "request": c["request"], "font_base64": c["font_base64"],
                           "why": "shaping did not finish within %d ms" % c.get("max_ms", 4000)})
         elif not out.startswith("ok") or "generic-fail" in out:
-            fails.append({"what": "corpus-regression-case", "corpus_file": path, "request": c["request"], "font_base64": c["font_base64"], "why": out[:300]})
+            fails.append({"what": "corpus-regression-case", "corpus_file": path, "request": c["request"], "font_base64": c["font_base64"],
+                          "profile": c.get("profile", "release"), "why": out[:300]})
     return fails, len(emb)
 
 
@@ -322,6 +340,24 @@ def run(chk):
         g2["what"] = "generated-font-generic-predicate"
         g2["stream"] = "mal"
         fails.append(g2)
+    # ---- malformed stream on the overflow-checked build (overflow-checks + debug-assertions)
+    okc, binc, blogc = C.cargo_build("checked", hooks=True)
+    if not okc:
+        broken.append("checked-build-failed: " + blogc[-400:])
+    else:
+        _, _, gc, sc = run_gen(binc, chk.seed, 3000 if thorough else 800, 8, "mal")
+        mc = re.search(r"shapes=(\d+)", sc or "")
+        chk.add_eval(int(mc.group(1)) if mc else 0, 0)
+        chk.note("malformed_stream_shapes_checked_build", {"shapes": int(mc.group(1)) if mc else 0, "failures": len(gc)})
+        for g in gc:
+            if "panic:Overflow" in g.get("why", "") and chk.is_known("morx_overflow_checked_build"):
+                chk.known_finding("morx_overflow_checked_build", "arithmetic overflow panic in an overflow-checked build: mal stream font %s, %s" % (g.get("font"), g.get("request", "")[:120]))
+                continue
+            g2 = dict(g)
+            g2["what"] = "generated-font-generic-predicate-checked-build"
+            g2["stream"] = "mal"
+            g2["profile"] = "checked"
+            fails.append(g2)
     # ---- corpus fonts
     f3, cstats = corpus_random(chk, binp, 400 if thorough else 60)
     fails += f3
@@ -330,6 +366,13 @@ def run(chk):
     chk.note("correspondence_disagreements", len(dis))
     # ---- verdicts
     reported = 0
+    rest_fails = []
+    for f in fails:
+        if f.get("profile") == "checked" and "Overflow" in str(f.get("why")) and chk.is_known("morx_overflow_checked_build"):
+            chk.known_finding("morx_overflow_checked_build", "arithmetic overflow panic in an overflow-checked build: %s" % str(f.get("request"))[:120])
+        else:
+            rest_fails.append(f)
+    fails = rest_fails
     for f in fails:
         if reported >= 5:
             break
@@ -372,6 +415,9 @@ def replay(chk, path):
         print("harness build failed")
         return 1
     print("kind:", body.get("kind"))
+    if body.get("profile") == "checked":
+        ok, binp, _ = C.cargo_build("checked", hooks=True)
+        print("(overflow-checked build)")
     req = body.get("request")
     rcode = 0
     if "cases" in body:   # a corpus file
